@@ -213,6 +213,54 @@ async def check_validity_product(ctx, case):
         ctx.count("validity_runs_with_concurrency")
 
 
+async def check_direct_sites(ctx, case):
+    """the three public gather sites called directly (as user code may): every key is paired with its own value under every completion order;
+    evaluate_conditions also with per-key evaluation contexts for some of the keys"""
+    from ahbicht.content_evaluation.evaluationdatatypes import EvaluationContext
+
+    rng = ctx.case_rng(case)
+    ctx.set_case("direct-sites", case)
+    tlp = E.install()
+    rc_keys, fc_keys, hint_keys = case["rc_keys"], case["fc_keys"], case["hint_keys"]
+    contexts = {k: EvaluationContext(scope=f"$.scope[{k}]") for k in rc_keys if rng.random() < 0.5}
+
+    def factory():
+        world = E.World("direct", rc=table_for(rc_keys), fc={k: i % 2 == 0 for i, k in enumerate(fc_keys)}, fc_msg={k: f"E{k}" for k in fc_keys})
+
+        async def go():
+            E.set_world(world)
+            text_to_be_evaluated_by_format_constraint.set("text-direct")
+            a = await tlp.rc.evaluate_conditions(list(rc_keys), world.data(), dict(contexts) if contexts else None)
+            b = await tlp.fc.evaluate_format_constraints(list(fc_keys))
+            c = await tlp.hints.get_hints(list(hint_keys))
+            return sorted((k, str(v)) for k, v in a.items()), sorted((k, v.format_constraint_fulfilled, v.error_message) for k, v in b.items()), sorted((k, v.hint) for k, v in c.items())
+
+        return go()
+
+    baseline = await sched.run_under(None, factory)
+    seen = set()
+    total = len(rc_keys) + len(fc_keys) + len(hint_keys)
+    if total <= 5:
+        runs = []
+        async for sc, out, _complete in sched.explore_all(factory, max_runs=150):
+            runs.append((sc, out))
+    else:
+        runs = []
+        for _ in range(8):
+            sc = sched.Sched(sched.RandomChooser(rng))
+            runs.append((sc, await sched.run_under(sc, factory)))
+    for sc, out in runs:
+        ctx.evaluation()
+        ctx.count("direct_site_runs")
+        seen.add(tuple(map(str, sc.order)))
+        if out[0] != "ok" or baseline[0] != "ok" or out[1] != baseline[1]:
+            ctx.violation("order-dependent-result", f"evaluate_conditions({rc_keys}, contexts for {sorted(contexts)}) / evaluate_format_constraints({fc_keys}) / get_hints({hint_keys}) with release order {[str(x) for x in sc.order][:12]}: {describe(out)[:300]}; when nothing yields: {describe(baseline)[:300]}")
+            return
+    ctx.count("direct_site_release_orders", len(seen))
+    if contexts:
+        ctx.count("direct_site_runs_with_contexts")
+
+
 def gen_case(rng):
     pools = G.Pools(rc=["1", "2", "3", "4", "5", "6"], hint=["501", "502", "503"], fc=["901", "902", "903", "904"])
 
@@ -264,6 +312,12 @@ async def run(ctx):
             else:
                 continue
             await check_validity_product(ctx, case)
+        for i in range(ctx.budget(120, 6_000)):
+            n_rc, n_fc, n_h = rng.randint(1, 5), rng.randint(0, 3), rng.randint(0, 3)
+            case = {"rc_keys": rng.sample(E.RC_KEYS[:12], n_rc), "fc_keys": rng.sample(["901", "902", "903", "904", "950"], n_fc), "hint_keys": rng.sample(["501", "502", "503", "900"], n_h)}
+            if rng.random() < 0.3 and case["rc_keys"]:
+                case["rc_keys"].append(case["rc_keys"][0])  # a key asked for twice
+            await check_direct_sites(ctx, case)
         for name, n in mon.calls.items():
             ctx.count("contract:" + name, n)
         for name, n in mon.multi.items():
@@ -281,5 +335,7 @@ async def replay(ctx, phase, case):
             await check_orders(ctx, case)
         elif phase == "isolation":
             await check_isolation(ctx, case)
+        elif phase == "direct-sites":
+            await check_direct_sites(ctx, case)
         else:
             await check_validity_product(ctx, case)
